@@ -22,9 +22,9 @@ TRUSTED = ["model: lean/Srctools/Model/C04.lean (fromAngle, matMul, vecRot, tran
            "arguments and threshold are re-extracted from math.py by tools/gen_rot.py and proved equal to the model (C04_gen_*)",
            "sin/cos/atan2/sqrt/degrees/radians of CPython's libm are not modelled: an angle is three points of the unit circle, "
            "atan2 is its normalised output for a supplied radius; floating-point rounding is covered only by the stated tolerances",
-           "whether a FrozenMatrix product goes into a fresh object (model parameter `fresh`) is probed on the implementation "
-           "(open finding frozen-matrix-mutated, owned by C05); the operand dispatch table and inverse() are tied by "
-           "correspondence only (not by the translator)"]
+           "the operand dispatch table and inverse() are tied by correspondence only (not by the translator), except the "
+           "model parameter `fresh` (a FrozenMatrix product goes into a new object), which gen_rot.py reads off "
+           "MatrixBase.__matmul__/__rmatmul__ (C04_gen_fresh) and the harness also probes"]
 NOT_MODELLED = ['_math.pyx (Cython twin)', 'floating-point rounding error (tolerances only)', 'Matrix.from_basis / axis_angle',
                 'the % 360 normalisation of resulting angles (C05)']
 ASSUMPTIONS = ['operands are finite floats; rotation matrices are built by from_angle or products of those',
@@ -468,7 +468,10 @@ def correspond(ctx, drivers):
         tab = {(a, b, c): e for a, b, c, e in rep[0]['table']}
         ctx.extra['model_table_entries'] = len(tab)
         ctx.extra['model_table_defined'] = sum(1 for e in tab.values() if e is not None)
-    add([{'op': 'table', 'fresh': fresh}], chk_table)
+        if rep[0]['fresh'] != fresh:
+            ctx.disagree({'probe': 'fm @ m is a new object'}, fresh, rep[0]['fresh'],
+                         'FrozenMatrix product goes to a fresh object: source (Gen.Rot.fmatProductFresh) vs observed')
+    add([{'op': 'table'}], chk_table)
 
     # --- angle cases
     rng = case_rng(ctx, 'angles')
@@ -554,7 +557,7 @@ def correspond(ctx, drivers):
             ctx.disagree({'case': list(case)}, f'{type(ex).__name__}: {ex}', None, 'dispatch raised')
             continue
         obs = observed[3]
-        req = {'op': 'dispatch', 'fresh': fresh, 'l': l, 'r': r, 'form': f, 'lv': obs['lval'], 'rv': obs['rval'],
+        req = {'op': 'dispatch', 'l': l, 'r': r, 'form': f, 'lv': obs['lval'], 'rv': obs['rval'],
                'rad': [dy(x) for x in obs['rad']]}
 
         def chk(rep, case=case, obs=obs):
@@ -659,10 +662,18 @@ def search(ctx):
         prop_dispatch_case(ctx, im, case)
     for e in gen_inverse_cases(ctx, case_rng(ctx, 'inverse')):
         prop_inverse_case(ctx, im, e)
+    # witnesses of findings recorded as fixed must pass now
+    import common
+    for k in common.load_known(PID):
+        if k.get('status') == 'fixed' and isinstance(k.get('witness'), dict):
+            _replay_input(ctx, im, k['witness'])
+            ctx.count('fixed-finding-witness-replayed')
     # neighbours of whatever disagreed in the correspondence
     rng = case_rng(ctx, 'neighbours')
     for d in ctx.disagreements[:20]:
         c = d['case']
+        if 'probe' in c:
+            continue
         if 'l' in c:
             l, r, f = TAGS.index(c['l']), TAGS.index(c['r']), FORMS.index(c['form'])
             for _ in range(20):
